@@ -460,7 +460,8 @@ func clip(s string, n int) string {
 
 // typeLevel: unification and struct instantiation over symbolic type terms (GoSE).
 func typeLevel(r *core.Report, env *build.Env) {
-	s := &goh.Suite{R: r, Env: env, Patterns: []string{"./src/parser/typechecker", "./src/ddptypes", "./src/ast"}, Files: map[string]string{
+	s := &goh.Suite{R: r, Env: env, Patterns: []string{"./src/parser", "./src/parser/typechecker", "./src/ddptypes", "./src/ast"}, Files: map[string]string{
+		"src/parser/zz_verif_c15.go":             "parser/zz_verif_c15.go",
 		"src/parser/typechecker/zz_verif_c15.go": "typechecker/zz_verif_c15.go",
 		"src/parser/typechecker/zz_verif_c14.go": "typechecker/zz_verif_c14.go",
 		"src/parser/typechecker/zz_verif_c07.go": "typechecker/zz_verif_c07.go",
@@ -472,6 +473,8 @@ func typeLevel(r *core.Report, env *build.Env) {
 	for _, h := range []goh.Harness{
 		{Pkg: "src/parser/typechecker", Func: "VerifC15UnifyTwice", Bound: "two argument types as type terms of depth <= 1 with symbolic primitive kinds; second parameter T or T Liste"},
 		{Pkg: "src/parser/typechecker", Func: "VerifC15ListMismatch", Bound: "argument type term of depth <= 1 against the parameter 'T Liste'"},
+		{Pkg: "src/parser", Func: "VerifC15GenericScope", Bound: "one declaration (variable/Konstante/function) each in the declaration context and at the instantiation site, symbolic 1-byte names, symbolic query"},
+		{Pkg: "src/parser", Func: "VerifC15GenericTypeScope", Bound: "one type name each in the declaration context and at the instantiation site, symbolic 1-byte names, symbolic query"},
 		{Pkg: "src/parser/typechecker", Func: "VerifC15StructInstances", Bound: "two type arguments as type terms of depth <= 1 for a generic Kombination with fields T and T Liste"},
 	} {
 		s.Run(h)
